@@ -228,9 +228,16 @@ func c09Reload(c *vlib.Ctx) {
 	for i := 0; i < n; i++ {
 		r := vlib.Derive(c.Seed, "C09L2", i)
 		tol := 5 * time.Minute
+		// the route's secret in every form the configuration language has: inline shorthand,
+		// inline block, and a versioned secret from the secrets block (secret_ref)
+		authForm := []string{" auth hmac raw:topsecret\n", " auth hmac {\n  secret raw:topsecret\n }\n", " auth hmac {\n  secret_ref \"S1\"\n }\n", " auth hmac {\n  secret_ref \"S1\"\n  tolerance 5m\n }\n"}[(i/4)%4]
+		secretsBlock := ""
+		if strings.Contains(authForm, "secret_ref") {
+			secretsBlock = "secrets {\n secret \"S1\" {\n  value raw:topsecret\n  valid_from \"2020-01-01T00:00:00Z\"\n }\n}\n"
+		}
 		mk := func(extra string) string {
-			return "ingress { listen 127.0.0.1:0 }\npull_api { listen 127.0.0.2:0\n auth token raw:tok }\nadmin_api { listen 127.0.0.3:0 }\n" +
-				"/signed { queue { backend memory }\n auth hmac raw:topsecret\n pull { path /pull/s } }\n" +
+			return "ingress { listen 127.0.0.1:0 }\npull_api { listen 127.0.0.2:0\n auth token raw:tok }\nadmin_api { listen 127.0.0.3:0 }\n" + secretsBlock +
+				"/signed { queue { backend memory }\n" + authForm + " pull { path /pull/s } }\n" +
 				"/managed { queue { backend memory }\n application app1\n endpoint_name ep1\n pull { path /pull/m } }\n" + extra
 		}
 		clock := vlib.NewVClock(c08T0)
@@ -307,8 +314,8 @@ func c09Reload(c *vlib.Ctx) {
 		send("fresh", "fresh_after_"+kind)
 		c.Count("evaluations", int64(len(obs)))
 		c.Count("reload_trials", 1)
-		c.Distinct("nontrivial", "l2:"+kind)
-		nonceLedger(c, "L2", tol, obs, map[string]any{"kind": kind})
+		c.Distinct("nontrivial", fmt.Sprintf("l2:%s:form%d", kind, (i/4)%4))
+		nonceLedger(c, "L2", tol, obs, map[string]any{"kind": kind, "auth_form": authForm})
 		if !obs[0].Accepted || !obs[len(obs)-1].Accepted {
 			c.Violation(vlib.Signature{"class": "valid_request_never_accepted", "layer": "L2"}, fmt.Sprintf("valid signed request rejected (%s): %+v", kind, obs), nil)
 		}
